@@ -213,7 +213,7 @@ func (g *gen) candidate() string {
 		kinds = append(kinds, "exec", "exec", "exec", "stdout", "stdout", "stderr", "helpercmd")
 	}
 	if g.o.Exec && g.o.Background {
-		kinds = append(kinds, "bg", "bg", "wait", "kill", "bgwait", "bgwait")
+		kinds = append(kinds, "bg", "bg", "wait", "kill", "bgwait", "bgwait", "bgmix")
 	}
 	if g.p.CustomCmds {
 		kinds = append(kinds, "probe", "probe", "probe", "failcmd", "cemit", "setenv", "defer", "getenv")
@@ -424,6 +424,32 @@ func (g *gen) candidate() string {
 			return neg + "exec vmain block " + flags + " " + spec + "\nexec vmain waitfile " + ready
 		}
 		return neg + "exec vmain " + g.helperArgs() + " " + spec
+	case "bgmix":
+		// several named and anonymous background helpers in a drawn order, then one named helper is
+		// signalled and waited for while the others keep running until the script ends
+		var ls []string
+		var named []string
+		n := rapid.IntRange(2, 5).Draw(t, "nmix")
+		for i := 0; i < n; i++ {
+			g.nbg++
+			ready := fmt.Sprintf("ready%d", g.nbg)
+			flags := "--ready=" + ready
+			if g.o.PidDir != "" {
+				flags += fmt.Sprintf(" --pid=%s/p%d-%d", g.o.PidDir, rapid.IntRange(0, 1<<30).Draw(t, "pidtag"), g.nbg)
+			}
+			spec := "&"
+			pre := ""
+			if rapid.IntRange(0, 2).Draw(t, "mixnamed") == 0 || (i == n-1 && len(named) == 0) {
+				name := fmt.Sprintf("m%d", g.nbg)
+				named = append(named, name)
+				spec = "&" + name + "&"
+				pre = "! " // it will be killed: a command that must fail
+			}
+			ls = append(ls, pre+"exec vmain block "+flags+" "+spec, "exec vmain waitfile "+ready)
+		}
+		target := rapid.SampledFrom(named).Draw(t, "mixtarget")
+		ls = append(ls, "kill "+rapid.SampledFrom([]string{"", "-KILL ", "-INT "}).Draw(t, "sig")+target, "wait "+target)
+		return strings.Join(ls, "\n")
 	case "bgwait":
 		// start a background command with a chosen exit status and wait for it right away
 		g.nbg++
